@@ -99,7 +99,7 @@ var c15SharedImage []byte
 func TestC15(t *testing.T) {
 	runWitnesses(t, "C15")
 	col := ev.New("C15", "rapid state machine over memory.Bytes: initial layout of 0-6 non-empty blocks in a 48-byte "+
-		"window (adjacent allowed, overlapping with probability 1/4 -> NewBytes must fail, else succeed), then constant "+
+		"window or, with blocks of up to 250 bytes, in a 600-byte window (adjacent allowed, overlapping with probability 1/4 -> NewBytes must fail, else succeed; a third of the layouts cut out of one shared buffer with spare capacity, which NewBytes must leave untouched), then constant "+
 		"stores (constant width <,=,> store width), loads, Missing and Blocks on arbitrary sub-ranges. Reference: plain "+
 		"byte map; every constant/byte slice handed in or returned is kept with a private copy and re-compared after "+
 		"every step (aliasing detector). non-trivial = a store creating a new block in a gap before >=2 existing blocks "+
